@@ -262,6 +262,10 @@ func c1Diffs(pa, pb map[string]c1node) []c1diff {
 		}
 		ea, eb := strings.HasPrefix(x.a, "_|_("), strings.HasPrefix(x.b, "_|_(")
 		switch {
+		case oka && okb && ((x.a == "_|_(eval)" && nb.childErr == "eval") || (x.b == "_|_(eval)" && na.childErr == "eval")):
+			// erroneous in both arrangements: a bare bottom in one, a struct / list with
+			// erroneous descendants in the other
+			x.kind = "err-collapse"
 		case !oka || !okb:
 			x.kind = "absent"
 		case ea && eb:
@@ -308,6 +312,78 @@ type c1runner struct {
 	timeout time.Duration
 	idx     int
 	note    func(i int, name string, texts []string) // progress record before an evaluation
+	mu       sync.Mutex
+	verdicts map[string]c1verdict
+}
+
+// confirm applies the strict rule to a failing pair that the classifier attributes to the
+// known class cls: the pair is delta-debugged (keeping the class) and the MINIMISED pair must
+// show exactly one known shape with the difference kind recorded for it. The verdict is cached
+// per (program, class).
+func (x *c1runner) confirm(p c1prog, cls string, pref c1arr) (ok bool, why string, min c1prog, f c1fail) {
+	key := p.name
+	x.mu.Lock()
+	if v, hit := x.verdicts[key]; hit {
+		x.mu.Unlock()
+		return v.ok, v.why, v.min, v.f
+	}
+	x.mu.Unlock()
+	budget := 8 * time.Second
+	if p.stream == "corpus" {
+		budget = 20 * time.Second
+	}
+	// the minimiser evaluates programs of its own making: name them for the crash record
+	x.mark(p, []string{"// while minimising\n" + p.src})
+	// minimise keeping the class (no drift into another known finding)
+	min, f, found := c1MinimiseProg(p, cls, budget, []c1arr{pref})
+	if !found {
+		ok, why = false, "the failing arrangement could not be reproduced for minimisation"
+	} else if f.byRule {
+		ok, why = c1Strict(min, f.texts, f.cls, nil)
+	} else {
+		ok, why = c1Strict(min, f.texts, f.cls, f.found)
+	}
+	x.mu.Lock()
+	if x.verdicts == nil {
+		x.verdicts = map[string]c1verdict{}
+	}
+	x.verdicts[key] = c1verdict{ok, why, min, f}
+	x.mu.Unlock()
+	if x.c != nil {
+		x.c.Count("strict:minimised")
+		if !ok {
+			x.c.Count("strict:rejected")
+		}
+	}
+	return
+}
+
+var c1kindRe = regexp.MustCompile(`\[(err-class|err-vs-value|err-collapse|absent|value)\]`)
+
+func c1corpusClass(name, diff string) string {
+	name = strings.TrimPrefix(name, "cue/testdata/")
+	if i := strings.Index(name, ".txtar"); i >= 0 {
+		name = name[:i]
+	}
+	kinds := map[string]bool{}
+	for _, m := range c1kindRe.FindAllStringSubmatch(diff, -1) {
+		if m[1] != "absent" {
+			kinds[m[1]] = true
+		}
+	}
+	var ks []string
+	for k := range kinds {
+		ks = append(ks, k)
+	}
+	sort.Strings(ks)
+	return "corpus:" + name + ":" + strings.Join(ks, "+")
+}
+
+type c1verdict struct {
+	ok  bool
+	why string
+	min c1prog
+	f   c1fail
 }
 
 func (x *c1runner) mark(p c1prog, texts []string) {
@@ -389,6 +465,7 @@ func (x *c1runner) check(p c1prog, r *Rng) int {
 		if j%3 == 2 {
 			kinds = c1kinds(Pick(rr, c1allKinds))
 		}
+		recipe := c1arr{rng: *rr, kinds: kinds}
 		texts, applied, err := c1Rearrange(p.src, rr, kinds, 40)
 		if err != nil {
 			c.Count(p.stream + ":rearrange-error")
@@ -451,9 +528,30 @@ func (x *c1runner) check(p c1prog, r *Rng) int {
 		if cls == "" {
 			cls = c1classByDiff(p, base, res, diffs, texts...)
 		}
-		c.Direct(false, cls, "canon(eval P) != canon(eval P'): "+c1diffString(diffs),
-			map[string]any{"name": p.name, "stream": p.stream, "p": p.src, "p_rearranged": texts, "applied": c1appliedString(applied),
-				"canon_p": c1clip(base.canon), "canon_p_rearranged": c1clip(res.canon)})
+		rec := map[string]any{"name": p.name, "stream": p.stream, "p": p.src, "p_rearranged": texts, "applied": c1appliedString(applied),
+			"canon_p": c1clip(base.canon), "canon_p_rearranged": c1clip(res.canon)}
+		if cls != "" {
+			// known only if the MINIMISED pair is an instance of exactly that one finding
+			ok, why, min, f := x.confirm(p, cls, recipe)
+			rec["minimal_p"], rec["minimal_p_rearranged"], rec["minimal_diff"] = min.src, f.texts, f.diff
+			if ok {
+				cls = f.cls
+			}
+			if !ok {
+				rec["tentative_class"], rec["rejected_because"] = cls, why
+				cls = ""
+				if p.stream == "corpus" {
+					// a program of the repository's own test data is a fixed input: keyed by
+					// the file and the kinds of difference seen on the minimised pair
+					dd := f.diff
+					if dd == "" {
+						dd = c1diffString(diffs)
+					}
+					cls = c1corpusClass(p.name, dd)
+				}
+			}
+		}
+		c.Direct(false, cls, "canon(eval P) != canon(eval P'): "+c1diffString(diffs), rec)
 	}
 	c.Case(p.src, nontrivial && strings.Contains(base.canon, ","))
 	return fails
@@ -488,27 +586,39 @@ func (x *c1runner) class(p c1prog, texts []string, canonP, canonQ string, applie
 			}
 		}
 	}
-	if p.stream == "corpus" {
-		if c1hasFieldListComprehension(p.src) {
-			return "list-from-field-comprehension-order"
-		}
-	}
 	return ""
 }
 
 var c1probeRe = regexp.MustCompile(`A[01]{2}`)
+var c1listElemRe = regexp.MustCompile(`/[0-9]+(/|$)`)
 var c1flagRe = regexp.MustCompile(`<[RCE]+>`)
 
 // c1classByDiff: classes decided by WHERE and HOW the two value trees differ. Every differing
 // path must be explained by a known class, otherwise the pair stays unclassified.
 func c1classByDiff(p c1prog, base, res c1res, diffs []c1diff, texts ...string) string {
+	cls, _ := c1classify(p, base, res, diffs, texts...)
+	return cls
+}
+
+// c1neutral: difference kinds that accompany other classes (the Allows probes and closed flags
+// of a node next to an erroneous / disallowed child) and are classes of their own only when
+// nothing else differs.
+var c1neutral = map[string]bool{
+	"allows-answer-of-vertex-depends-on-arrangement": true,
+	"closed-flag-of-vertex-depends-on-arrangement":   true,
+}
+
+// c1classify returns the class of a failing pair and the set of classes that explain its
+// differing paths one by one.
+func c1classify(p c1prog, base, res c1res, diffs []c1diff, texts ...string) (string, map[string]bool) {
 	if len(diffs) == 0 {
-		return ""
+		return "", nil
 	}
 	hasRef := strings.Contains(p.src, ".") || strings.Contains(p.src, "[")
 	bothErr := base.info.nErr > 0 && res.info.nErr > 0
 	embRef := c1hasEmbeddedRef(p.src)
-	if !embRef && (strings.Contains(p.src, "#") || strings.Contains(p.src, "close(")) {
+	sibFirst := !embRef && c1hasSiblingRefConj(p.src)
+	if !embRef && !sibFirst && (strings.Contains(p.src, "#") || strings.Contains(p.src, "close(")) {
 		// the sole-embedding wrap `{…}` → `{{…}}` of the rearrangement itself puts a literal
 		// that holds a definition reference / close() into an embedding (C05: `{A}` is not
 		// always A for closedness)
@@ -520,11 +630,41 @@ func c1classByDiff(p c1prog, base, res c1res, diffs []c1diff, texts ...string) s
 	}
 	selfRef := c1selfRef(p.src)
 	nMarks := c1countMarks(p.src)
-	compr := strings.Contains(p.src, "if ") || strings.Contains(p.src, "for ")
+	compr := c1hasMaybeEmptyComprehension(p.src)
+	cycleDir := p.stream == "corpus" && strings.Contains(p.name, "/cycle/")
+	listCompr := c1hasFieldListComprehension(p.src)
+	sibRef := c1hasSiblingRefConj(p.src)
+	// paths at which one side reports an error: a differing ancestor of such a path is derived
+	var errPaths []string
+	for _, d := range diffs {
+		if d.kind == "err-vs-value" || d.kind == "err-collapse" || d.kind == "err-class" {
+			errPaths = append(errPaths, d.path)
+		}
+	}
+	ancestorOfErr := func(p string) bool {
+		for _, e := range errPaths {
+			if strings.HasPrefix(e, p+"/") {
+				return true
+			}
+		}
+		return false
+	}
 	found := map[string]bool{}
 	for _, d := range diffs {
 		sa, sb := c1probeRe.ReplaceAllString(d.a, ""), c1probeRe.ReplaceAllString(d.b, "")
 		switch {
+		case sibFirst && (d.kind == "err-vs-value" || d.kind == "absent" ||
+			(d.kind == "value" && c1flagRe.ReplaceAllString(sa, "") == c1flagRe.ReplaceAllString(sb, ""))):
+			// `r: p & q` over sibling fields holding (definition) references: error-vs-value,
+			// closed flag and Allows answers of r
+			found["closedness-through-sibling-field-references-depends-on-order"] = true
+		case d.kind == "err-collapse":
+			found["erroneous-node-bare-bottom-or-struct-with-erroneous-children"] = true
+		case listCompr && c1listElemRe.MatchString(d.path) && d.kind != "err-class":
+			// the elements of a list built from the fields of a struct, in another order
+			found["list-from-field-comprehension-order"] = true
+		case cycleDir:
+			found["cyclic-mutual-constraint-error-placement"] = true
 		case d.kind == "value" && sa == sb:
 			// only the Allows probes differ: they answer "true" for a node with an
 			// erroneous child; explained by the child's entry
@@ -533,6 +673,8 @@ func c1classByDiff(p c1prog, base, res c1res, diffs []c1diff, texts ...string) s
 			c1flagRe.ReplaceAllString(sa, "") == "T(_)+"+c1flagRe.ReplaceAllString(sb, "") ||
 			c1flagRe.ReplaceAllString(sb, "") == "T(_)+"+c1flagRe.ReplaceAllString(sa, "")):
 			found["top-unified-with-struct-holding-failing-comprehension"] = true
+		case d.kind == "err-class" && hasRef && compr:
+			found["missing-field-reference-inside-comprehension-fatal-vs-incomplete"] = true
 		case d.kind == "err-class" && hasRef:
 			found["missing-field-reference-fatal-vs-incomplete"] = true
 		case (d.kind == "err-vs-value" || d.kind == "absent") && embRef:
@@ -551,27 +693,117 @@ func c1classByDiff(p c1prog, base, res c1res, diffs []c1diff, texts ...string) s
 		case d.kind == "value" && c1flagRe.ReplaceAllString(sa, "") == c1flagRe.ReplaceAllString(sb, ""):
 			// nothing but the closed flags of the vertex (Value.IsClosed) differs
 			found["closed-flag-of-vertex-depends-on-arrangement"] = true
-		case p.stream == "corpus" && strings.Contains(p.name, "/cycle/"):
-			found["cyclic-mutual-constraint-error-placement"] = true
 		case nMarks >= 2 && (strings.Contains(sa, ";*") || strings.Contains(sb, ";*") || d.kind != "value"):
 			found["default-order-several-marked-disjunctions"] = true
+		case (d.kind == "err-vs-value" || d.kind == "absent") && sibRef && !embRef:
+			found["closedness-through-sibling-field-references-depends-on-order"] = true
 		case (d.kind == "err-vs-value" || d.kind == "absent") && bothErr:
 			found["error-placement-through-reference"] = true
+		case d.kind == "value" && bothErr && ancestorOfErr(d.path):
+			// the own description of an ancestor changes with the erroneous child (arc type
+			// of a child that is an error on one side): derived
+			found["allows-answer-of-vertex-depends-on-arrangement"] = true
 		default:
-			return ""
+			return "", nil
 		}
 	}
-	for _, c := range []string{"closedness-of-embedded-reference-depends-on-arrangement",
+	for _, c := range []string{"list-from-field-comprehension-order", "closedness-through-sibling-field-references-depends-on-order",
+		"closedness-of-embedded-reference-depends-on-arrangement",
 		"self-reference-inside-disjunction-or-comprehension", "cyclic-mutual-constraint-error-placement",
-		"default-order-several-marked-disjunctions", "closed-flag-of-vertex-depends-on-arrangement",
-		"allows-answer-of-vertex-depends-on-arrangement",
+		"default-order-several-marked-disjunctions",
 		"top-unified-with-struct-holding-failing-comprehension",
-		"missing-field-reference-fatal-vs-incomplete", "error-placement-through-reference"} {
+		"missing-field-reference-inside-comprehension-fatal-vs-incomplete",
+		"missing-field-reference-fatal-vs-incomplete",
+		"closedness-through-sibling-field-references-depends-on-order", "error-placement-through-reference",
+		"erroneous-node-bare-bottom-or-struct-with-erroneous-children",
+		"closed-flag-of-vertex-depends-on-arrangement", "allows-answer-of-vertex-depends-on-arrangement"} {
 		if found[c] {
-			return c
+			return c, found
 		}
 	}
-	return ""
+	return "", found
+}
+
+// c1Shapes: the structural shapes (by which known findings are keyed) present in a pair.
+//   E  an embedding that is a reference / close() / literal with `...`, or a sole-embedding
+//      wrap of the rearrangement around a definition reference or close()
+//   C  a comprehension    S  self reference in a disjunct / comprehension guard
+//   M  two or more default marks    L  a list built by a comprehension over a non-literal
+func c1Shapes(p c1prog, texts []string) map[string]bool {
+	sh := map[string]bool{}
+	if c1hasEmbeddedRef(p.src) {
+		sh["E"] = true
+	}
+	defer func() {
+		// the rearrangement's own sole-embedding wrap around a definition reference / close()
+		// counts as the embedding shape only when the program shows no other shape
+		if len(sh) == 0 && (strings.Contains(p.src, "#") || strings.Contains(p.src, "close(")) {
+			for _, t := range texts {
+				if strings.Contains(t, "{{") {
+					sh["E"] = true
+				}
+			}
+		}
+	}()
+	if c1hasMaybeEmptyComprehension(p.src) {
+		sh["C"] = true
+	}
+	if c1selfRef(p.src) {
+		sh["S"] = true
+	}
+	if n := c1countMarks(p.src); n >= 2 || (p.stream == "marks" && n >= 1) {
+		sh["M"] = true
+	}
+	if c1hasFieldListComprehension(p.src) {
+		sh["L"] = true
+	}
+	if c1hasSiblingRefConj(p.src) {
+		sh["F"] = true
+	}
+	return sh
+}
+
+// c1classShape: the one structural shape a class is keyed by ("" = none allowed, "*" = the
+// class is keyed by the difference kind or by the corpus directory only).
+var c1classShape = map[string]string{
+	"closedness-of-embedded-reference-depends-on-arrangement":  "E",
+	"closedness-through-sibling-field-references-depends-on-order": "F",
+	"top-unified-with-struct-holding-failing-comprehension":   "C",
+	"self-reference-inside-disjunction-or-comprehension":      "S",
+	"default-order-several-marked-disjunctions":                "M",
+	"list-from-field-comprehension-order":                      "L",
+	"missing-field-reference-fatal-vs-incomplete":              "",
+	"missing-field-reference-inside-comprehension-fatal-vs-incomplete": "C",
+	"error-placement-through-reference":                        "",
+	"cyclic-mutual-constraint-error-placement":                 "*",
+	"erroneous-node-bare-bottom-or-struct-with-erroneous-children": "*",
+	"allows-answer-of-vertex-depends-on-arrangement":           "*",
+	"closed-flag-of-vertex-depends-on-arrangement":             "*",
+}
+
+// c1Strict decides whether a (minimised) failing pair is an instance of exactly ONE known
+// finding: every differing path is explained by the class cls (Allows-probe / closed-flag
+// differences of enclosing nodes are tolerated next to it) and the program shows no structural
+// shape other than the one cls is keyed by.
+func c1Strict(p c1prog, texts []string, cls string, found map[string]bool) (bool, string) {
+	for c := range found {
+		if c != cls && !c1neutral[c] {
+			return false, "differences of two classes: " + cls + " and " + c
+		}
+	}
+	want, ok := c1classShape[cls]
+	if !ok {
+		return false, "class without a recorded shape: " + cls
+	}
+	if want == "*" {
+		return true, ""
+	}
+	for s := range c1Shapes(p, texts) {
+		if s != want {
+			return false, "minimal pair shows shape " + s + " besides " + want + " (" + cls + ")"
+		}
+	}
+	return true, ""
 }
 
 // c1selfRef: a field whose value mentions the field's own name inside a disjunction, or a
@@ -588,6 +820,13 @@ func c1selfRef(src string) bool {
 		walk = func(n ast.Node, inDisj bool) {
 			ast.Walk(n, func(m ast.Node) bool {
 				switch x := m.(type) {
+				case *ast.Field:
+					// a plain label is not a reference
+					if _, isIdent := x.Label.(*ast.Ident); !isIdent {
+						walk(x.Label, inDisj)
+					}
+					walk(x.Value, inDisj)
+					return false
 				case *ast.BinaryExpr:
 					if x.Op == token.OR && !inDisj {
 						walk(x.X, true)
@@ -622,6 +861,101 @@ func c1selfRef(src string) bool {
 								}
 							}
 						}
+					}
+				}
+			}
+		}
+		return !found
+	}, nil)
+	return found
+}
+
+// c1hasSiblingRefConj: a field whose value is (an operand of &, or) an identifier naming
+// another field of the SAME struct, e.g. `{p: #B.x, q: #A.x, r: p & q}`.
+func c1hasSiblingRefConj(src string) bool {
+	f, err := c1parse(src)
+	if err != nil {
+		return false
+	}
+	found := false
+	check := func(ds []ast.Decl) {
+		labels := map[string]bool{}
+		for _, d := range ds {
+			if fd, ok := d.(*ast.Field); ok {
+				if id, ok := fd.Label.(*ast.Ident); ok {
+					labels[id.Name] = true
+				}
+			}
+		}
+		var operand func(e ast.Expr, self string)
+		operand = func(e ast.Expr, self string) {
+			switch x := e.(type) {
+			case *ast.Ident:
+				if labels[x.Name] && x.Name != self {
+					found = true
+				}
+			case *ast.ParenExpr:
+				operand(x.X, self)
+			case *ast.BinaryExpr:
+				if x.Op == token.AND {
+					operand(x.X, self)
+					operand(x.Y, self)
+				}
+			}
+		}
+		for _, d := range ds {
+			if fd, ok := d.(*ast.Field); ok {
+				self := ""
+				if id, ok := fd.Label.(*ast.Ident); ok {
+					self = id.Name
+				}
+				if b, ok := c1unparen(fd.Value).(*ast.BinaryExpr); ok && b.Op == token.AND {
+					operand(b, self)
+				}
+			}
+		}
+	}
+	ast.Walk(f, func(n ast.Node) bool {
+		if s, ok := n.(*ast.StructLit); ok {
+			check(s.Elts)
+		}
+		return !found
+	}, nil)
+	return found
+}
+
+// c1hasMaybeEmptyComprehension: a comprehension that may yield nothing: an `if` clause, or a
+// `for` over anything but a non-empty literal.
+func c1hasMaybeEmptyComprehension(src string) bool {
+	f, err := c1parse(src)
+	if err != nil {
+		return false
+	}
+	found := false
+	inList := map[ast.Node]bool{}
+	ast.Walk(f, func(n ast.Node) bool {
+		if l, ok := n.(*ast.ListLit); ok {
+			for _, e := range l.Elts {
+				inList[e] = true
+			}
+		}
+		if c, ok := n.(*ast.Comprehension); ok && !inList[c] {
+			for _, cl := range c.Clauses {
+				switch cl := cl.(type) {
+				case *ast.IfClause:
+					found = true
+				case *ast.ForClause:
+					switch s := cl.Source.(type) {
+					case *ast.StructLit:
+						if len(s.Elts) == 0 {
+							found = true
+						}
+					case *ast.ListLit:
+						if len(s.Elts) == 0 {
+							found = true
+						}
+					default:
+						found = true
 					}
 				}
 			}
@@ -670,9 +1004,24 @@ func c1hasEmbeddedRef(src string) bool {
 			}
 		}
 	}
+	skip := map[ast.Node]bool{}
 	ast.Walk(f, func(n ast.Node) bool {
-		if x, ok := n.(*ast.EmbedDecl); ok {
-			operand(x.Expr)
+		switch x := n.(type) {
+		case *ast.ListLit:
+			// `[for … {v}]`: the body's embedding is the element value, not an embedding
+			for _, e := range x.Elts {
+				if c, ok := e.(*ast.Comprehension); ok {
+					if b, ok := c.Value.(*ast.StructLit); ok {
+						for _, d := range b.Elts {
+							skip[d] = true
+						}
+					}
+				}
+			}
+		case *ast.EmbedDecl:
+			if !skip[x] {
+				operand(x.Expr)
+			}
 		}
 		return !found
 	}, nil)
@@ -804,6 +1153,7 @@ type c1slot struct {
 	prog  c1prog
 	gen   *Rng // nil for corpus programs
 	free  bool
+	refs  bool
 	depth int
 	seed  *Rng // rearrangement seed
 }
@@ -821,6 +1171,10 @@ func c1Slots(c *Cfg, repo string, r *Rng) []c1slot {
 	gr := r.Sub()
 	for i := 0; i < nGen; i++ {
 		slots = append(slots, c1slot{prog: c1prog{name: fmt.Sprintf("gen#%d", i), stream: "gen"}, gen: gr.Sub(), depth: 2 + i%2})
+	}
+	rr := r.Sub()
+	for i := 0; i < c.Pick(350, 3000); i++ {
+		slots = append(slots, c1slot{prog: c1prog{name: fmt.Sprintf("refs#%d", i), stream: "refs"}, gen: rr.Sub(), refs: true})
 	}
 	mr := r.Sub()
 	for i := 0; i < nMarks; i++ {
@@ -862,7 +1216,9 @@ func c1Worker(c *Cfg, w, n, start int) {
 		}
 		sl := slots[i]
 		x.idx = i
-		if sl.gen != nil {
+		if sl.refs {
+			sl.prog.src = (&c1refgen{r: sl.gen.Sub()}).Program()
+		} else if sl.gen != nil {
 			// mostly valid programs: an erroneous draw is redrawn (up to 5 times) 3 times
 			// out of 4
 			keepErr := !sl.free && sl.gen.Chance(1, 4)
@@ -978,6 +1334,7 @@ func runC01(c *Cfg) {
 	c1Witnesses(c)
 	if !c.Focus {
 		c1ModelOps(c, r.Sub())
+		c1ModelRefOps(c, r.Sub())
 	}
 }
 
